@@ -115,7 +115,9 @@ def rdOp : Rd (Option Op) := do
     a temporary – a manipulator is a value, so for the model it is the same operation -/
 def parseOp (s : String) : Option Op :=
   let ws := words s
-  (rdOp.run (if ws.head? = some "lv" then ws.drop 1 else ws)).1
+  -- `ux <op>`: the operation is performed from a destructor that runs while an unrelated exception is unwinding the stack
+  -- (a clean-up handler restoring the cursor): the same operation
+  (rdOp.run (if ws.head? = some "lv" || ws.head? = some "ux" then ws.drop 1 else ws)).1
 
 /-- parse `bits ; op ; op …` -/
 def parseScript (rest : String) : Behaviour × List Op :=
